@@ -17,6 +17,8 @@ from harness.core import LaneBase, hx
 
 from cai_causal_graph.causal_graph import Skeleton  # noqa: E402  (path set up by harness.impl)
 
+LITERAL_NAMES = ['0x10', '1_000', '+1', "'q'", '1.5', 'None', '(1, 2)', '1e3', 'True', '[1]', '{}', '"d"', '-0', '007', '1j',
+                 '0b11', '-1', '10', 'nan', '&amp;']
 GML_MANGLED = ('()', '[]')      # networkx.parse_gml turns these two labels into an empty tuple / list
 
 
@@ -143,6 +145,56 @@ def closure_failures(sk, g):
     return bad
 
 
+def nodeform_failures(sk, g, stale):
+    """a node may be named by its identifier or by any Node object carrying that identifier (the graph's own node, a
+    skeleton node taken earlier, a same-named node of another graph): the skeleton reports the graph's CURRENT node and
+    neighbours whichever is used; the by-pair forms and is_empty agree with the plain forms"""
+    from cai_causal_graph.type_definitions import NodeVariableType
+    bad = []
+    gnodes = {n.identifier: n for n in g.nodes}
+    for a in sorted(gnodes)[:5]:
+        o = gnodes[a]
+        forms = [('its identifier', a), ('the graph node', o)]
+        try:
+            other_vt = NodeVariableType.BINARY if o.variable_type != NodeVariableType.BINARY else NodeVariableType.ORDINAL
+            forms.append(('a same-named node with other attributes', type(o)(a, variable_type=other_vt, meta={'foreign': 1})))
+        except Exception:  # noqa: BLE001
+            pass
+        if a in stale:
+            forms.append(('a skeleton node taken earlier', stale[a]))
+        try:
+            want_nb = sorted(sk.get_neighbors(a))
+        except Exception:  # noqa: BLE001
+            continue
+        for what, x in forms:
+            try:
+                n = sk.get_node(x)
+                if n.identifier != a or n.variable_type != o.variable_type or impl.cj(n.meta) != impl.cj(o.meta):
+                    bad.append(f'get_node given {what} does not report the current graph node {a!r}')
+                if not sk.node_exists(x):
+                    bad.append(f'node_exists given {what} is False for node {a!r}')
+                if sorted(sk.get_neighbors(x)) != want_nb:
+                    bad.append(f'get_neighbors given {what} differs from get_neighbors({a!r})')
+                if sorted(m.identifier for m in sk.get_neighbor_nodes(x)) != want_nb:
+                    bad.append(f'get_neighbor_nodes given {what} differs from get_neighbors({a!r})')
+            except Exception as e:  # noqa: BLE001
+                bad.append(f'a skeleton reader given {what} raised {type(e).__name__}')
+    for e in list(g.edges)[:4]:
+        a, b = e.source.identifier, e.destination.identifier
+        try:
+            if frozenset(sk.get_edge_by_pair((b, a)).get_edge_pair()) != frozenset((a, b)) or not sk.is_edge_by_pair((b, a)) \
+                    or not sk.is_edge_by_pair((a, b)):
+                bad.append('get_edge_by_pair / is_edge_by_pair disagree with get_edge / edge_exists')
+        except Exception as ex:  # noqa: BLE001
+            bad.append(f'get_edge_by_pair / is_edge_by_pair raised {type(ex).__name__}')
+    try:
+        if sk.is_empty() != (len(gnodes) == 0):
+            bad.append('is_empty() disagrees with the node set')
+    except Exception as ex:  # noqa: BLE001
+        bad.append(f'is_empty raised {type(ex).__name__}')
+    return bad
+
+
 def round_trip_failures(sk, g):
     bad = []
     cls = type(g)
@@ -177,7 +229,9 @@ class Lane(LaneBase):
     RULE = ('random histories of 3-25 public mutator calls on both classes over all six edge types; the Skeleton '
             'handle is taken before the first call; after every call every skeleton reader of that handle is compared '
             'with the model skeleton of the current graph state and with the symmetric closure of graph.edges; round '
-            'trips through dict / matrix / networkx / GML at three points of each history. A case is non-trivial when '
+            'trips through dict / matrix / networkx / GML at three points of each history; node arguments given as '
+            'identifier, graph node, stale skeleton node and same-named foreign node; extra histories over node names '
+            'that read as Python / GML literals. A case is non-trivial when '
             'at least 3 calls succeeded and the final graph has an edge; distinct by the hash of its reply stream.')
     TRUSTED = ['the graph state is sent to the model as a whole-state token after each call (harness.impl.enc_graph); '
                'that the token is the state the mutators produce is the subject of lane C01',
@@ -191,6 +245,10 @@ class Lane(LaneBase):
 
     def cases(self, tier, rng):
         yield from histories.gen_cases(tier, rng, 1200, 12000)
+        # node names that read as Python / GML literals: every text form must give them back as the same strings
+        for _ in range(150 if tier == 'quick' else 1500):
+            gen = histories.Gen(rng, 'plain', universe=rng.sample(LITERAL_NAMES, 5) + ['a'])
+            yield {'cls': 'plain', 'gmeta': {}, 'ops': gen.history(rng.randint(3, 12)), 'warm': rng.random() < 0.5}
 
     def run_case(self, case):
         g = impl.new_graph(case['cls'], case.get('gmeta') or None)
@@ -201,6 +259,7 @@ class Lane(LaneBase):
         nops = len(case['ops'])
         rt_at = {nops - 1, nops // 2, nops // 4}
         types_seen = set()
+        stale = {}
         for i, op in enumerate(case['ops']):
             r = impl.apply_op(g, op)
             nok += r == 'ok'
@@ -212,9 +271,14 @@ class Lane(LaneBase):
             for e in g.edges:
                 types_seen.add(impl.ety(e))
             if not oracle:
-                bad = closure_failures(sk, g)
+                bad = closure_failures(sk, g) or nodeform_failures(sk, g, stale)
                 if bad:
                     oracle.append(f'after call {i} ({op[0]}, {r}): ' + bad[0])
+            try:
+                for n in sk.nodes:
+                    stale.setdefault(n.identifier, n)       # first sighting, kept across later replace / delete + re-add
+            except Exception:  # noqa: BLE001
+                pass
             if i in rt_at:
                 bad, rebuilt = round_trip_failures(sk, g)
                 if bad and len(oracle) < 3:
